@@ -17,16 +17,6 @@ func init() {
 	registry["C11"] = []func(*Report){ruleC11}
 }
 
-func unionFns(p *Prog, ms ...map[*ssa.Function]bool) []*ssa.Function {
-	u := map[*ssa.Function]bool{}
-	for _, m := range ms {
-		for f := range m {
-			u[f] = true
-		}
-	}
-	return sortedFns(p, u)
-}
-
 func ruleC09(r *Report) {
 	p := r.P
 	sc := NewScope(p, r.Tier)
@@ -1102,19 +1092,6 @@ func atomLooksUp(ai *AtomInfo, suffix string) bool {
 		if c, ok := v.(*ssa.Call); ok {
 			for _, a := range c.Call.Args {
 				if k, ok := a.(*ssa.Const); ok && k.Value != nil && k.Value.Kind() == constant.String && strings.HasSuffix(constant.StringVal(k.Value), suffix) {
-					return true
-				}
-			}
-		}
-	}
-	return false
-}
-
-func atomLookupsCertificateOld(ai *AtomInfo) bool {
-	for _, v := range ai.Vals {
-		if c, ok := v.(*ssa.Call); ok {
-			for _, a := range c.Call.Args {
-				if k, ok := a.(*ssa.Const); ok && k.Value != nil && k.Value.Kind() == constant.String && strings.HasSuffix(constant.StringVal(k.Value), "X509Certificate") {
 					return true
 				}
 			}
